@@ -25,7 +25,10 @@ def handle : List Sx → String
            | some l =>
              let e := ceilRoot nt nd
              let c := digits ix e nd
-             let want := (List.range nt).filter fun i => withinF r (dist2 c (digits i e nd))
+             -- (when the model answered, its answer is this very expression: reuse it)
+             let want := match m with
+               | some w => w
+               | none => (List.range nt).filter fun i => withinF r (dist2 c (digits i e nd))
              if ix < nt && withinF r 0 && !l.contains ix then " PROPFAIL C20 the centre is not in its neighbourhood"
              else if !(l.zip l.tail).all (fun (a, b) => a < b) then " PROPFAIL C20 not ascending / repeats"
              else if !l.all (· < nt) then " PROPFAIL C20 invalid index"
